@@ -16,6 +16,9 @@ CHECKS = {
  "C19": ("exploration", "runtime monitoring: adversarially related transcript pairs judged against an independent canonical encoding; commitment alteration lattice",
          "Seeded generation of typed item sequences and related pairs (boundary/domain shifts, split/merge, retyping, permutation, framing pasted as bytes crafted against weakened framings); a digest collision between sequences whose canonical encodings differ is the violation; commitments must refuse every altered tuple/decommitment.",
          "Abstract identity of items computed by harness code; blake3 collision resistance.", "5/C19"),
+ "C06": ("fault_enumeration", "runtime monitoring: shielded twin handlers (two real handlers with one identity, forked randomness at round k) as the equivocator, every bipartition of the honest parties, offline view-consistency checker over the simulator log",
+         "For every MultiHandler protocol, non-final broadcast round k, equivocator position and bipartition (sampled for the expensive ones), the two groups receive individually valid but different payloads; twins are shielded so that only the honest handlers' echo comparison can stop the session; two honest finishers with different recorded views are the violation. A wire-only one-byte flip is the weak variant.",
+         "Twins coincide up to round k-1 through identical deterministic randomness streams; honest-to-honest traffic is never modified.", "5/C06"),
  "C07": ("exploration", "runtime monitoring: stateless DFS with sleep sets over all causally permitted delivery interleavings of a deterministic protocol run by the real MultiHandler, plus sampled adversarial schedules on the real protocols under party-keyed deterministic randomness",
          "Exhaustive for n=2 (all rounds, plus one duplicate at every later position) and n=3 rounds 2-3 (thorough; budgeted in quick); sampled random/reverse/starve schedules with duplicates, stale replays and foreign-session injections for FROST, Taproot, Doerner and CMP sign; results must be bit-identical to the in-order run whenever a party's draw sequence is identical, correct and agreed otherwise.",
          "Sleep-set reduction assumes deliveries to different parties commute (no shared objects); exhaustive flag only when all DFS sub-trees completed.", "5/C07"),
